@@ -14,7 +14,7 @@ import time
 HERE = os.path.dirname(os.path.abspath(__file__))
 VERIF = os.path.dirname(HERE)
 REPO = "/repo"
-SCRATCH = os.environ.get("WT_SCRATCH", "/tmp/wt-selftest")
+SCRATCH = os.environ.get("WT_SCRATCH") or tempfile.mkdtemp(prefix="wt-selftest-")
 
 
 def copy_repo(dst):
@@ -32,7 +32,24 @@ def copy_repo(dst):
             shutil.copy2(s, d)
 
 
+def seeds():
+    """the kept seeded changes (seeded/<id>/patch.diff, written by independent sub-agents) as additional mutants"""
+    out = []
+    sd = os.path.join(VERIF, "seeded")
+    for d in sorted(os.listdir(sd)):
+        mp = os.path.join(sd, d, "meta.json")
+        if os.path.exists(mp):
+            meta = json.load(open(mp))
+            out.append({"name": "seed:" + d, "props": [meta["breaks_property"]], "patch": os.path.join(sd, d, "patch.diff")})
+    return out
+
+
 def apply(dst, m):
+    if m.get("patch"):
+        r = subprocess.run(["patch", "-p1", "-s", "-i", m["patch"]], cwd=dst, stdout=subprocess.PIPE, stderr=subprocess.STDOUT, text=True)
+        if r.returncode != 0:
+            raise RuntimeError("mutant %s: patch does not apply: %s" % (m["name"], r.stdout[-200:]))
+        return
     edits = m.get("edits") or [m]
     for e in edits:
         p = os.path.join(dst, e["file"])
@@ -57,15 +74,18 @@ def main():
     args = sys.argv[1:]
     only = None
     prop = None
+    out_json = None
     i = 0
     while i < len(args):
         if args[i] == "--only":
             only = args[i + 1]; i += 2
         elif args[i] == "--prop":
             prop = args[i + 1]; i += 2
+        elif args[i] == "--json":
+            out_json = args[i + 1]; i += 2
         else:
             i += 1
-    mutants = json.load(open(os.path.join(HERE, "mutants.json")))
+    mutants = json.load(open(os.path.join(HERE, "mutants.json"))) + seeds()
     res = []
     dst = os.path.join(SCRATCH, "repo")
     evdir = os.path.join(SCRATCH, "evidence")
@@ -83,6 +103,8 @@ def main():
             print("SKIP  %-50s %s" % (m["name"], e))
             continue
         for pid in m["props"]:
+            if prop and pid != prop:
+                continue
             env = dict(os.environ, WT_REPO=dst, WT_EVIDENCE_DIR=evdir)
             r = subprocess.run([os.path.join(VERIF, "check"), pid], env=env, stdout=subprocess.PIPE, stderr=subprocess.STDOUT, text=True, cwd=VERIF)
             out = r.stdout
@@ -98,7 +120,10 @@ def main():
     shutil.rmtree(SCRATCH, ignore_errors=True)
     det = sum(1 for r in res if r["status"] == "detected")
     print("selftest: %d/%d detected" % (det, len([r for r in res if r["status"] != "skipped"])))
-    json.dump(res, open(os.path.join(HERE, "last_result.json"), "w"), indent=1)
+    if out_json:
+        json.dump(res, open(out_json, "w"), indent=1)
+    elif not only and not prop:
+        json.dump(res, open(os.path.join(HERE, "last_result.json"), "w"), indent=1)
     return 0
 
 
